@@ -23,7 +23,8 @@ P(root, segs) == INSTANCE_DB!P(root, segs)
 SL(x) == StrL(StrCps(x))
 
 \* dj-related: the base is a related manager (the posts of author 1), not the model's default manager
-Styles == {"sa-select", "sa-legacy", "dj-queryset", "dj-manager", "dj-related"}
+\* sa-*-cols: the base selects a column subset (the title) that does not identify the row
+Styles == {"sa-select", "sa-legacy", "dj-queryset", "dj-manager", "dj-related", "sa-select-cols", "sa-legacy-cols"}
 \* native base conditions the harness knows how to build without the library, with their meaning
 BaseConds == [ npos |-> Cmp("gt", Id0("n"), IntL(0)), ta |-> Cmp("eq", Id0("title"), SL("a")),
                hasauthor |-> Cmp("ne", P("author", <<"name">>), NullL) ]
@@ -38,6 +39,18 @@ Filters == << Cmp("eq", Id0("n"), IntL(1)),
               Call(Id0("contains"), <<Id0("title"), SL("a")>>),
               Bool("and", Cmp("eq", P("info", <<"tag">>), SL("p")), Cmp("eq", P("author", <<"info", "tag">>), SL("a"))),
               Bool("or", Cmp("eq", P("author", <<"home", "name">>), NullL), Cmp("eq", P("info", <<"tag">>), SL("p"))) >>
+\* A comparison on a path THROUGH a collection (no lambda).  Not OData, but both ORMs give it one meaning, the join:
+\* a base row is selected once per related row that makes the comparison true.  The result is a bag of base rows.
+\* (the many-to-many "authors" is left out: it reaches the Author table a second time next to a host join on "author")
+ManyFilters == << Cmp("eq", P("comments", <<"k">>), IntL(3)), Cmp("gt", P("comments", <<"k">>), IntL(1)),
+                  Cmp("eq", P("comments", <<"text">>), SL("x")) >>
+NF == Len(Filters)
+IsMany(f) == f > NF
+FilterAt(f) == IF IsMany(f) THEN ManyFilters[f - NF] ELSE Filters[f]
+Kids(r, rel) == IF rel = "comments" THEN { c \in DB["Comment"] : c.post = IV(r.id) }
+                ELSE { x \in DB["Author"] : <<r.id, x.id>> \in DB["editors"] }
+Mult(r, f) == LET t == FilterAt(f)  rel == t[3][2][3]  fld == t[3][3] IN
+              Cardinality({ c \in Kids(r, rel) : Compare(t[2], c[fld], EvalR(DB, [k \in {""} |-> <<"Post", r>>], t[4])) = TRUEV })
 \* to-one relations a filter navigates (the joins SQLAlchemy needs; Django resolves them itself)
 RECURSIVE RootOf(_)
 RootOf(p) == IF p[1] = "Attr" THEN RootOf(p[2]) ELSE p
@@ -50,7 +63,7 @@ Empty == [style |-> "none", wheres |-> <<>>, joins |-> <<>>, order |-> "none", a
 Init == q = Empty /\ steps = <<>>
 PickStyle == /\ q.style = "none" /\ \E s \in Styles : q' = [q EXCEPT !.style = s]
              /\ steps' = steps
-Buildable == q.style \in {"sa-select", "sa-legacy", "dj-queryset"} /\ q.applied = 0
+Buildable == q.style \in {"sa-select", "sa-legacy", "dj-queryset", "sa-select-cols", "sa-legacy-cols"} /\ q.applied = 0
 BaseWhere == /\ Buildable /\ Len(q.wheres) < (IF Deep THEN 2 ELSE 1)
              /\ \E c \in DOMAIN BaseConds : (\A i \in 1..Len(q.wheres) : q.wheres[i] # c) /\ q' = [q EXCEPT !.wheres = Append(@, c)] /\ steps' = Append(steps, <<"where", c>>)
 \* author-explicit: joined by naming the target and the ON clause (join(Author, Post.author_id == Author.id)) instead of the relationship
@@ -63,7 +76,7 @@ BaseOrder == /\ Buildable /\ q.order = "none"
 BaseAnnotate == /\ Buildable /\ ~q.annot
                 /\ q' = [q EXCEPT !.annot = TRUE] /\ steps' = Append(steps, <<"annotate", "extra">>)
 Apply == /\ q.style # "none" /\ q.applied = 0
-         /\ \E f \in 1..Len(Filters) : q' = [q EXCEPT !.applied = f] /\ steps' = Append(steps, <<"apply", f>>)
+         /\ \E f \in 1..(NF + Len(ManyFilters)) : q' = [q EXCEPT !.applied = f] /\ steps' = Append(steps, <<"apply", f>>)
 Next == PickStyle \/ BaseWhere \/ BaseJoin \/ BaseOrder \/ BaseAnnotate \/ Apply
 IsCase == q.applied # 0
 
@@ -74,13 +87,16 @@ BaseOk(r) == /\ \A i \in 1..Len(q.wheres) : EvalR(DB, [k \in {""} |-> <<"Post", 
              /\ (q.style = "dj-related" => r.author = IV(1))
              /\ (InnerJoined("info-inner") => r.info # NULL)
 BaseRows == { r.id : r \in { x \in DB["Post"] : BaseOk(x) } }
-ResultRows == { r.id : r \in { x \in DB["Post"] : BaseOk(x) /\ EvalR(DB, [k \in {""} |-> <<"Post", x>>], Filters[q.applied]) = TRUEV } }
+Sat(x) == IF IsMany(q.applied) THEN Mult(x, q.applied) >= 1 ELSE EvalR(DB, [k \in {""} |-> <<"Post", x>>], Filters[q.applied]) = TRUEV
+ResultRows == { r.id : r \in { x \in DB["Post"] : BaseOk(x) /\ Sat(x) } }
+\* how often each selected row appears (1 unless the filter joins a collection)
+ResultMult == { <<r.id, IF IsMany(q.applied) THEN Mult(r, q.applied) ELSE 1>> : r \in { x \in DB["Post"] : BaseOk(x) /\ Sat(x) } }
 \* joins the result must contain: the host's, plus "author" exactly once if the filter navigates it (SQLAlchemy)
-NeedsAuthor == "author" \in Required(Filters[q.applied])
+NeedsAuthor == "author" \in Required(FilterAt(q.applied))
 ResultSubsetOfBase == IsCase => ResultRows \subseteq BaseRows
 
 Export == PrintT(ToJson(IF IsCase
-            THEN [k |-> "case", style |-> q.style, steps |-> steps, filter |-> TextOf(Pr(Filters[q.applied], "min"), SP),
+            THEN [k |-> "case", style |-> q.style, steps |-> steps, filter |-> TextOf(Pr(FilterAt(q.applied), "min"), SP), mult |-> ResultMult, many |-> IsMany(q.applied),
                   base |-> BaseRows, expected |-> ResultRows, ordered |-> q.order # "none", annot |-> q.annot,
                   needs_author |-> NeedsAuthor,
                   host_joined |-> (\E i \in 1..Len(q.joins) : q.joins[i] \in {"author-inner", "author-outer", "author-explicit"})]
